@@ -4,7 +4,7 @@
 cd /verif
 ids="$@"; [ -z "$ids" ] && ids=$(ls seeded)
 for id in $ids; do
- for v in a b c d; do
+ for v in ${VARIANTS:-a b c d}; do
   d=seeded/$id/$v
   [ -d $d ] || continue
   patch=$d/patch.diff; [ -f $d/patch_head.diff ] && patch=$d/patch_head.diff
